@@ -5,7 +5,7 @@ Correspondence (stream `validators`): the real validators / convert_value agains
 Coq, and against the independent spec (Spec/ValidatorsSpec.v) evaluated next to it.  The stdlib oracles of the
 model (str, lower/upper, int, float, UUID, fromisoformat, epoch + timedelta) are measured on the real stdlib by
 the worker, per case, and handed to the model as finite tables."""
-import json, math, os, struct, sys
+import json, math, os, struct, sys, time
 from lib import *
 sys.path.insert(0, os.path.join(ROOT, 'translator'))
 from t_validators import parse_regex, regex_to_coq, RegexUnsupported   # the same regex front end as the translator
@@ -34,7 +34,11 @@ def fj(x):
 
 def N(): return ['none']
 def B(b): return ['bool', bool(b)]
-def I(z): return ['int', str(z)]
+def I(z): return ['int', str(z) if abs(z) < INT_LIMIT else hex(z)]      # beyond the digit limit only hex() is available
+
+
+def pint(t):
+    return int(t, 16) if 'x' in t else int(t)
 def F(x): return ['float', fj(x)]
 def S(s): return ['str', [ord(c) for c in s]]
 def BY(b): return ['bytes', list(b)]
@@ -79,6 +83,15 @@ def enc_float(js):
     return [3, int(p[1]), p[2], p[3]]
 
 
+def enc_Z(z):
+    """Model/ValidatorsEval.enc_Z: sign, number of limbs, base-2^60 limbs (least significant first)"""
+    a, l = abs(z), []
+    while a:
+        l.append(a & ((1 << 60) - 1))
+        a >>= 60
+    return [1 if z < 0 else 0, len(l)] + l
+
+
 def enc_value(j):
     t = j[0]
     if t == 'none':
@@ -86,7 +99,7 @@ def enc_value(j):
     if t == 'bool':
         return [1, int(j[1])]
     if t == 'int':
-        return [2, int(j[1])]
+        return [2] + enc_Z(pint(j[1]))
     if t == 'float':
         return [3] + enc_float(j[1])
     if t in ('str', 'bytes'):
@@ -110,6 +123,9 @@ def enc_outcome(o):
 
 # ---------- Coq terms ------------------------------------------------------------------------------------------
 def cz(n):
+    """Coq literal of an integer; big ones in hexadecimal (coqc needs 40 s to read a 4000-digit decimal literal)"""
+    if abs(n) >= 1 << 62:
+        return f'(-0x{-n:x})' if n < 0 else f'0x{n:x}'
     return f'({n})' if n < 0 else str(n)
 
 
@@ -135,7 +151,7 @@ def c_value(j):
     if t == 'bool':
         return f'(VBool {coq_bool(j[1])})'
     if t == 'int':
-        return f'(VInt {cz(int(j[1]))})'
+        return f'(VInt {cz(pint(j[1]))})'
     if t == 'float':
         return f'(VFloat {c_float(j[1])})'
     if t == 'str':
@@ -202,9 +218,10 @@ def c_outcome(o, conv):
 def c_tables(t):
     def tab(rows, key, val):
         return coq_list([f'({key(k)}, {val(v)})' for k, v in rows])
-    return ('{| t_str := %s; t_lower := %s; t_upper := %s; t_int := %s; t_float := %s; t_uuid := %s; t_iso := %s; t_epoch := %s |}' % (
+    return ('{| t_str := %s; t_lower := %s; t_upper := %s; t_int := %s; t_intb := %s; t_float := %s; t_uuid := %s; t_iso := %s; t_epoch := %s |}' % (
         tab(t['str'], c_value, c_zlist), tab(t['lower'], c_zlist, c_zlist), tab(t['upper'], c_zlist, c_zlist),
         tab(t['int'], c_zlist, lambda o: c_outcome(o, lambda z: cz(int(z)))),
+        tab(t['intb'], c_zlist, lambda o: c_outcome(o, lambda z: cz(int(z)))),
         tab(t['float'], c_zlist, lambda o: c_outcome(o, c_float)),
         tab(t['uuid'], c_zlist, lambda o: c_outcome(o, c_value)),
         tab(t['iso'], c_value, lambda o: c_outcome(o, c_value)),
@@ -217,6 +234,8 @@ TT = {'bool': 'TBool', 'int': 'TInt', 'float': 'TFloat', 'str': 'TStr', 'list': 
 def coq_term(c, impl):
     """the term (type list Z) that evaluates model and spec on the case; None when there is nothing to evaluate"""
     k = c['kind']
+    if c.get('nomodel'):
+        return None
     if k == 'validate':
         return f'eval_validate {c_tables(impl["oracles"])} {c_validator(c["w"])} {c_value(c["v"])}'
     if k == 'convert':
@@ -238,6 +257,10 @@ def coq_term(c, impl):
         return f'eval_cmp {c_value(c["a"])} {c_value(c["b"])}'
     if op == 'ws':
         return 'eval_ws'
+    if op == 'num_ws':
+        return 'eval_num_ws'
+    if op == 'int_str':
+        return f'eval_int_str {c_zlist(c["s"])}'
     if op == 'regex':
         return f'eval_regex {c["mode"]} {c_regex(c["pat"])} {c_zlist(c["s"])}'
     if op == 'email':
@@ -457,7 +480,7 @@ def gen_enum(rng, n):
     vals_int = [I(1), I(2), I(-3), I(0), I(3), I(-1), I(5), I(2 ** 70), I(2 ** 70 + 1), B(True), B(False), F(1.0), F(1.5), F(-3.0),
                 F(-3.5), F(0.0), F(-0.0), F(0.999), F(2.0000000000000004), F(float(2 ** 70)), F(nan), F(inf), F(-inf), F(1e300),
                 S('1'), S(' 1 '), S('1.5'), S('+1'), S('1_0'), S('-3'), S('\uff11'), S('0x1'), S(''), S('a'), S('1\n'), S('\x1f2'),
-                S('1' * 30), S(str(2 ** 70)), N(), L([I(1)]), T([I(1)]), OBJ(0), BY(b'1'), MEM(0), MEM(1), D([], [])]
+                S('1' * 30), S(str(2 ** 70)), N(), L([I(1)]), T([I(1)]), OBJ(0), BY(b'1'), BY(b' 2 '), BY(b'\x1f2'), BY(b'\x852'), BY(b'x'), BY(b''), BY(b'1_0'), MEM(0), MEM(1), D([], [])]
     vals_any = [S('go'), S('GO'), S('Go'), S('stop'), S('STOP'), S('a'), S('A'), S('b '), S('\xe4b'), S('\xc4B'), S('\xdf'), S('ss'),
                 S('1'), I(1), F(1.0), B(True), F(2.5), F(2.4999999999999996), N(), F(nan), L([I(1)]), T([]), OBJ(0), I(0), S(''),
                 MEM(0), MEM(1), D([], []), BY(b'GO')]
@@ -597,6 +620,11 @@ def gen_nested(rng, n, max_depth):
             if r < 0.7:
                 m = rng.choice([0, 1, 1, 2, 3])
                 kids = [tree(depth + 1) for _ in range(m)]
+                # members of an IntEnum are ints in Python but opaque in the model: a converting IsEnum(IntEnum) is only
+                # generated as the last child of a chain, so that no member is handed on to another validator
+                for kw, _ in kids[:-1]:
+                    if kw['k'] == 'IsEnum' and kw['int']:
+                        kw['convert'] = False
                 w = {'k': 'ForEach', 'cs': [k[0] for k in kids], 'single': rng.random() < 0.3, 'tuple': rng.random() < 0.2}
 
                 def g():
@@ -665,6 +693,32 @@ def gen_convert(rng, n):
     return cases
 
 
+def gen_digitlimit(rng):
+    """beyond CPython's int<->str digit limit the model is silent (show_Z is the mathematical printer): implementation
+    against the property text only"""
+    out = []
+    for z in (10 ** 4300, -10 ** 4300, 10 ** 5000, rng.getrandbits(16000) | (1 << 15999)):
+        for t in ('str', 'float', 'list', 'bool', 'dict'):
+            out.append({'kind': 'convert', 'v': I(z), 't': t, 'stream': 'digitlimit', 'nomodel': True})
+    out.append({'kind': 'convert', 'v': I(10 ** 5000), 't': 'int', 'stream': 'digitlimit', 'nomodel': True})
+    out.append({'kind': 'convert', 'v': S('1' * 5000), 't': 'int', 'stream': 'digitlimit', 'nomodel': True})
+    out.append({'kind': 'convert', 'v': S('1' * 5000), 't': 'float', 'stream': 'digitlimit', 'nomodel': True})
+    return out
+
+
+def load_corpus():
+    """minimised past disagreements / false alarms, run first on every check"""
+    path = os.path.join(ROOT, 'corpus', 'C14.json')
+    if not os.path.exists(path):
+        return []
+    out = []
+    for e in json.load(open(path))['cases']:
+        c = dict(e['case'])
+        c['stream'] = 'corpus'
+        out.append(c)
+    return out
+
+
 def gen_roundtrip(rng, n):
     cases = [{'kind': 'roundtrip', 'x': B(b), 'stream': 'roundtrip'} for b in (True, False)]
     for z in INTS_SMALL + INTS_BIG:
@@ -676,9 +730,17 @@ def gen_roundtrip(rng, n):
     return cases
 
 
+INT_STR_SEEDS = ['\x1f2', '2\x1f', '\x1c2\x1c', '\x1d2', '\x1e2', '\x852', '\xa02\xa0', ' 2 ', '\t-3\n', '\u30002', '2\u3000',
+                 '\x1d', '-', '- 1', '1 2', '', '-0', '007', '\x0b12\x0c', '\u20282\u2029', '\u205f2\u202f', '\u16802', '+2', '1_0',
+                 '\uff11', '2\x00', '\u200b2', '\x1f-2\x1f', ' \x1f2']
+
+
 def gen_prims(rng, n):
     P = lambda **kw: dict(kind='prim', stream='prims', **kw)
-    cases = [P(op='ws')]
+    cases = [P(op='ws'), P(op='num_ws')]
+    digits_ws = list('0123456789') * 2 + ['-'] + WS
+    for t in INT_STR_SEEDS:
+        cases.append(P(op='int_str', s=[ord(ch) for ch in t], closed=all(ch in digits_ws for ch in t)))
     for z in INTS_SMALL + INTS_BIG:
         cases.append(P(op='show', z=str(z)))
         cases.append(P(op='float_of_int', z=str(z)))
@@ -699,6 +761,12 @@ def gen_prims(rng, n):
         cases.append(P(op='int_of_float', f=fj(rand_float(rng))))
         cases.append(P(op='parse', s=[ord(c) for c in rand_str(rng, rng.randint(0, 6), list('0123456789-'))]))
         cases.append(P(op='strip', s=[ord(c) for c in rand_str(rng, rng.randint(0, 6), WS[:12] + NOT_WS[:6])]))
+        if rng.random() < 0.7:
+            t = rand_str(rng, rng.randint(0, 2), WS) + rand_str(rng, rng.randint(0, 3), digits_ws) + rand_str(rng, rng.randint(0, 2), WS)
+            cases.append(P(op='int_str', s=[ord(ch) for ch in t], closed=True))
+        else:
+            t = rand_str(rng, rng.randint(0, 5), digits_ws + ['+', '_', '\uff11', '\u0661', '.', 'e', 'x'])
+            cases.append(P(op='int_str', s=[ord(ch) for ch in t], closed=False))
         a = rng.choice([rand_int(rng), rand_float(rng), rng.random() < 0.5])
         b = rng.choice([rand_int(rng), rand_float(rng), a, float(a) if abs(a) < 1e300 else a])
         cases.append(P(op='cmp', a=num(a), b=num(b)))
@@ -710,23 +778,30 @@ def gen_prims(rng, n):
     return cases
 
 
+# cases per stream: (quick, thorough); quick stays within ~60 s wall on a loaded machine, thorough is ~15x larger
+VOLUME = {'bounds': (900, 16800), 'lengths': (350, 6000), 'notempty': (300, 4200), 'email': (400, 7200), 'uuid': (200, 3000),
+          'enum': (450, 7200), 'pattern': (300, 4800), 'iso': (160, 2400), 'unix': (300, 4800), 'nested': (600, 10800),
+          'convert': (900, 18000), 'roundtrip': (400, 6000), 'prims': (800, 14400)}
+
+
 def gen_cases(rng, tier, scale):
     q = tier == 'quick'
-    k = (1 if q else 12) * scale
+    n = {k: (v[0] if q else v[1]) * scale for k, v in VOLUME.items()}
     cases = []
-    cases += gen_bounds(rng, 1400 * k)
-    cases += gen_lengths(rng, 500 * k)
-    cases += gen_notempty(rng, 350 * k)
-    cases += gen_email(rng, 600 * k)
-    cases += gen_uuid(rng, 250 * k)
-    cases += gen_enum(rng, 600 * k)
-    cases += gen_pattern(rng, 400 * k)
-    cases += gen_iso(rng, 200 * k)
-    cases += gen_unix(rng, 400 * k)
-    cases += gen_nested(rng, 900 * k, 3 if q else 4)
-    cases += gen_convert(rng, 1500 * k)
-    cases += gen_roundtrip(rng, 500 * k)
-    cases += gen_prims(rng, 1200 * k)
+    cases += gen_bounds(rng, n['bounds'])
+    cases += gen_lengths(rng, n['lengths'])
+    cases += gen_notempty(rng, n['notempty'])
+    cases += gen_email(rng, n['email'])
+    cases += gen_uuid(rng, n['uuid'])
+    cases += gen_enum(rng, n['enum'])
+    cases += gen_pattern(rng, n['pattern'])
+    cases += gen_iso(rng, n['iso'])
+    cases += gen_unix(rng, n['unix'])
+    cases += gen_nested(rng, n['nested'], 3 if q else 4)
+    cases += gen_convert(rng, n['convert'])
+    cases += gen_roundtrip(rng, n['roundtrip'])
+    cases += gen_prims(rng, n['prims'])
+    cases += gen_digitlimit(rng)
     return cases
 
 
@@ -751,6 +826,11 @@ def judge(c, impl, model):
         o = impl['out']
         ok = o[0] == 'ok' and enc_value(o[1]) == enc_value(c['x'])
         return True, ok, '' if ok else f'convert_value(str(x), type(x)) does not give x back: {o}'
+    if k == 'convert' and c.get('nomodel'):
+        o = impl['out']
+        typed = (o[0] == 'ok' and o[1][0] in TYPE_TAG[c['t']]) or is_exc(o, CONVERR)
+        c['_obs'] = 'leak:' + o[2] if o[0] == 'exc' and not is_exc(o, CONVERR) else o[0]
+        return True, typed, '' if typed else f'neither an instance of {c["t"]} nor ConversionError: {o[:1] + o[2:] if o[0] == "exc" else o[:1]}'
     if model is None:
         return False, True, 'model evaluation failed'
     if k == 'validate':
@@ -764,6 +844,9 @@ def judge(c, impl, model):
             if m_out[:3] == [1, 1, 99] or -7 in m_out:
                 what = 'oracle table incomplete (harness)'
         o = impl['out']
+        # what was observed, for the matchers of the known findings
+        c['_obs'] = ('accepted' if o[0] == 'ok' else 'rejected' if is_exc(o, VEXC) else 'leak:' + o[2]) + \
+            '/' + {0: 'outside', 1: 'reject', 2: 'accept'}.get(s_ver[0], '?')
         if s_ver[0] == 1 and not is_exc(o, VEXC):
             return corr, False, f'the value does not satisfy the documented predicate, yet the call gave {o[:1] + o[2:] if o[0] == "exc" else o}'
         if s_ver[0] == 2 and (o[0] != 'ok' or enc_value(o[1]) != s_ver[1:]):
@@ -789,12 +872,25 @@ def judge(c, impl, model):
         want = [cp for lo, hi in zip(model[0::2], model[1::2]) for cp in range(lo, hi + 1)]
         ok = impl['strip'] == want and impl['isspace_same'] and impl['regex_same']
         return ok, True, '' if ok else 'whitespace set differs from CPython'
+    if op == 'num_ws':
+        want = [cp for lo, hi in zip(model[0::2], model[1::2]) for cp in range(lo, hi + 1)]
+        ok = impl['int'] == want and impl['float'] == want
+        return ok, True, '' if ok else 'the whitespace int()/float() skip differs from CPython'
+    if op == 'int_str':
+        # the modelled part of int(str): parse_dec (num_strip s).  Where it answers it must agree with CPython; on strings
+        # over whitespace / ASCII digits / '-' (closed=True) int() reads nothing else, so there it must also answer
+        r = impl['r']
+        if model[0] == 1:
+            ok = r[0] == 'ok' and [1] + enc_Z(int(r[1])) == model
+        else:
+            ok = not (c.get('closed') and r[0] == 'ok')
+        return ok, True, '' if ok else 'the modelled part of int(str) differs from CPython'
     if op in ('show', 'strip'):
         ok = impl['r'] == model
     elif op == 'parse':
         r = impl['r']
         # parse_dec recognises a subset of what int() reads; where it answers, it must agree
-        ok = (model[0] == 0) or (r[0] == 'ok' and int(r[1]) == model[1])
+        ok = (model[0] == 0) or (r[0] == 'ok' and [1] + enc_Z(int(r[1])) == model)
         s = ''.join(map(chr, c['s']))
         canonical = len(s) > 0 and (s.isdigit() or (s[0] == '-' and s[1:].isdigit() and len(s) > 1)) and s.isascii()
         ok = ok and (model[0] == 1) == canonical
@@ -803,7 +899,7 @@ def judge(c, impl, model):
         ok = model == ([0] + enc_float(r[1]) if r[0] == 'ok' else [1, len(r[1])] + r[1])
     elif op == 'int_of_float':
         r = impl['r']
-        ok = model == ([0, int(r[1])] if r[0] == 'ok' else [1, len(r[1])] + r[1])
+        ok = model == ([0] + enc_Z(int(r[1])) if r[0] == 'ok' else [1, len(r[1])] + r[1])
     elif op == 'cmp':
         ok = impl['r'] == model
     elif op == 'regex':
@@ -841,45 +937,77 @@ def evaluate(ck, cases):
 
 
 def matcher(finding, case):
-    return finding.get('matcher', {}).get('gap') in case.get('_gaps', [])
+    """an open finding covers a failing case only if (a) the Coq spec reports the finding's gap on the documented evaluation
+    path of the case (Spec.ValidatorsSpec.gaps: exactly the regions the _partial theorems exclude) and (b) the observation
+    is the finding's: a value that should be rejected is accepted / one specific foreign exception leaves"""
+    m = finding.get('matcher', {})
+    if m.get('id') == 'C14-digit-limit':
+        v = case.get('v', [])
+        return (case.get('kind') == 'convert' and bool(case.get('nomodel')) and case.get('_obs') == 'leak:ValueError'
+                and v[:1] == ['int'] and abs(pint(v[1])) >= 10 ** 4300 and case.get('t') != 'int')
+    if case.get('kind') != 'validate' or m.get('gap') not in case.get('_gaps', []):
+        return False
+    obs = case.get('_obs', '')
+    if m.get('continues'):
+        # the defect lets a value pass that the documented predicate rejects: the documented evaluation stops there with
+        # "reject", the implementation goes on (later children / items), so whatever it then does is a consequence
+        return obs.endswith('/reject') and obs != 'rejected/reject'
+    return obs in m.get('obs', [])
 
 
 def run(tier, seed, replay=None):
     ck = Check('C14', tier, seed, UNITS, MODEL, PROPS)
     ck.prepare()
+    t_prep = time.time() - ck.t0
+    found = [f for f in ck.findings if 'witness' in f]
+    witnesses = [dict(f['witness'], stream='known-findings') for f in found]
+    cases = load_corpus() + gen_cases(ck.rng, tier, 1) if replay is None else [dict(replay['case'])]
+    t1 = time.time()
+    impl, model = evaluate(ck, witnesses + cases)      # one batch: the witnesses of the known findings ride along
+    w_res = {f['id']: (w, i, m) for f, w, i, m in zip(found, witnesses, impl, model)}
+    impl, model = impl[len(witnesses):], model[len(witnesses):]
 
     def still_fails(f):
-        cs = [dict(f['witness'])]
-        impl, model = evaluate(ck, cs)
-        corr, prop, what = judge(cs[0], impl[0], model[0])
+        w, i, m = w_res[f['id']]
+        corr, prop, what = judge(w, i, m)
         return not prop
 
     ck.replay_known_findings(still_fails)
-    cases = gen_cases(ck.rng, tier, ck.scale()) if replay is None else [replay['case']]
-    impl, model = evaluate(ck, cases)
     hist, kinds, outcomes, disagreements = {}, {}, {}, {}
-    for c, i, m in zip(cases, impl, model):
-        st = c.get('stream', 'replay')
-        hist[st] = hist.get(st, 0) + 1
-        corr, prop, what = judge(c, i, m)
-        if c['kind'] == 'validate':
-            kinds[c['w']['k']] = kinds.get(c['w']['k'], 0) + 1
-            ver = {0: 'outside-domain', 1: 'reject', 2: 'accept'}.get(sections(m)[1][0], '?') if m else 'no-model'
-            oc = ver + '/' + (i['out'][0] if i and 'out' in i else 'lost') + (':' + i['out'][2] if i and 'out' in i and i['out'][0] == 'exc' else '')
-        elif c['kind'] == 'convert':
-            oc = 'convert:' + c['t'] + '/' + (i['out'][0] if i and 'out' in i else 'lost')
-        else:
-            oc = c['kind']
-        outcomes[oc] = outcomes.get(oc, 0) + 1
-        key = json.dumps({k: v for k, v in c.items() if not k.startswith('_') and k != 'stream'}, sort_keys=True)
-        ck.note_case(key, nontrivial=(c['kind'] != 'prim'))
-        if corr and prop:
-            ck.traces_validated += 1
-        if not prop:
-            ck.violation(what, c, stream=st, extra={'impl': {k: v for k, v in (i or {}).items() if k != 'oracles'}, 'model': m},
-                         matcher=matcher)
-        elif not corr:
-            disagreements.setdefault(st, []).append({'case': c, 'impl': i, 'model': m, 'what': what})
+
+    def consume(cases, impl, model):
+        for c, i, m in zip(cases, impl, model):
+            st = c.get('stream', 'replay')
+            hist[st] = hist.get(st, 0) + 1
+            corr, prop, what = judge(c, i, m)
+            if c['kind'] == 'validate':
+                kinds[c['w']['k']] = kinds.get(c['w']['k'], 0) + 1
+                ver = {0: 'outside-domain', 1: 'reject', 2: 'accept'}.get(sections(m)[1][0], '?') if m else 'no-model'
+                oc = ver + '/' + (i['out'][0] if i and 'out' in i else 'lost') + (':' + i['out'][2] if i and 'out' in i and i['out'][0] == 'exc' else '')
+            elif c['kind'] == 'convert':
+                oc = 'convert:' + c['t'] + '/' + (i['out'][0] if i and 'out' in i else 'lost')
+            else:
+                oc = c['kind']
+            outcomes[oc] = outcomes.get(oc, 0) + 1
+            key = json.dumps({k: v for k, v in c.items() if not k.startswith('_') and k != 'stream'}, sort_keys=True)
+            ck.note_case(key, nontrivial=(c['kind'] != 'prim'))
+            if corr and prop:
+                ck.traces_validated += 1
+            if not prop:
+                ck.violation(what, c, stream=st, extra={'impl': {k: v for k, v in (i or {}).items() if k != 'oracles'}, 'model': m},
+                             matcher=matcher)
+            elif not corr:
+                disagreements.setdefault(st, []).append({'case': c, 'impl': i, 'model': m, 'what': what})
+
+    consume(cases, impl, model)
+    # a proof / translation obligation is broken and the ordinary volume shows no failing input: search harder
+    if replay is None and ck.scale() > 1 and not ck.violations:
+        more = gen_cases(ck.rng, tier, ck.scale() - 1)
+        impl2, model2 = evaluate(ck, more)
+        consume(more, impl2, model2)
+        cases, impl, model = cases + more, impl + impl2, model + model2
+        ck.notes.append(f'search intensified: {len(more)} additional cases')
+    t_eval = time.time() - t1
     ck.violations.sort(key=lambda v: case_size(v['case']))
     for st in sorted(set(hist) | set(disagreements)):
         ds = sorted(disagreements.get(st, []), key=lambda d: case_size(d['case']))
@@ -887,24 +1015,36 @@ def run(tier, seed, replay=None):
                   json.dumps(ds[0], default=str)[:1500] if ds else f'{hist.get(st, 0)} cases agree')
     ck.coverage.update({'stream_histogram': hist, 'validator_kind_histogram': kinds, 'outcome_histogram': outcomes,
                         'disagreements': sum(len(v) for v in disagreements.values()),
-                        'int_domain': 'ints below 10**4000 in absolute value (CPython int/str digit limit is outside the model)'})
+                        'phase_seconds': {'regenerate+build+proofs': round(t_prep, 1), 'implementation+model evaluation': round(t_eval, 1)},
+                        'int_domain': 'model: ints below 10**4000 in absolute value; beyond CPython\'s int<->str digit limit (stream digitlimit) '
+                                      'the implementation is judged against the property text alone'})
     pick = [x for x in zip(cases, impl, model) if x[0]['kind'] != 'prim']
     ck.samples = [{'case': c, 'impl': {k: v for k, v in (i or {}).items() if k != 'oracles'}, 'model': m}
                   for c, i, m in pick[:3] + pick[-3:]]
     ck.assumptions = [
-        'stdlib oracles (str of floats/containers/objects, str.lower/upper outside ASCII, int(str)/float(str) outside canonical decimals, '
-        'uuid.UUID, datetime.fromisoformat, datetime + timedelta) are measured on the real stdlib per case; theorems assume only their raise-sets',
+        'stdlib oracles (str of floats/containers/objects, str.lower/upper outside ASCII, int(str) outside the canonical decimals, int(bytes), '
+        'float(str), uuid.UUID, datetime.fromisoformat, datetime + timedelta) are measured on the real stdlib per case; the theorems assume '
+        'only their documented raise-sets (Proofs/ValidatorsGood.oracles_ok)',
         'values do not override __eq__/__str__/__len__/__iter__/__lt__; Composite/ForEach children are re-iterable sequences',
-        'ints are below 10**4000 in absolute value (CPython int<->str digit limit)',
+        'members of an IntEnum are opaque values in the model (in Python they are ints): no case hands a converted IntEnum member on to a '
+        'further validator, and the specification makes no claim there (outside-domain)',
+        'the model has no int<->str digit limit (show_Z is the mathematical printer); finding C14-K8e lives outside it',
         'the float str() round trip (shortest repr) is decided by correspondence only (stream roundtrip), not by a theorem',
-        'Python `re` decides membership in the regular language of the pattern (checked per case against the derivative matcher)']
+        'Python `re` decides membership in the regular language of the pattern (checked per case against the derivative matcher, '
+        'which is proved to decide the language: C14_regex_matcher_correct)',
+        'whitespace: str.strip()/isspace()/\\s and the (smaller) set int()/float() skip are compared with CPython over all code points on every run']
     return ck.finish(
-        rule='streams bounds (every bound x include_boundary x values adjacent to the bound: bound, +-1, +-ulp, +-0.0, +-inf, NaN, huge ints, bools), '
-             'lengths (limit-1/limit/limit+1 for every Sized kind), notempty (every whitespace class), email (seed addresses, single edits, random), '
-             'uuid, enum, pattern, iso, unix, nested (random ForEach/Composite trees), convert (value x target), roundtrip, prims; '
-             'distinct = canonical JSON of the case; non-trivial = every case except the primitive self-checks',
+        rule='streams corpus (past false alarms), bounds (every bound x include_boundary x values adjacent to the bound: bound, +-1, +-ulp, +-0.0, '
+             '+-inf, NaN, huge ints, bools), lengths (limit-1/limit/limit+1 for every Sized kind), notempty (every whitespace class), email (seed '
+             'addresses, single edits, random), uuid, enum (IntEnum / Enum x int, float, str, bytes, members), pattern, iso, unix, nested (random '
+             'ForEach/Composite trees of depth <= 3 (quick) / 4 with values shaped for the children), convert (value x target), roundtrip, '
+             'prims (CPython primitives of the model one by one), digitlimit; distinct = canonical JSON of the case; non-trivial = every case '
+             'except the primitive self-checks',
         checker_cmd='make -C coq Props/C14.vo && coqc -Q coq PV coq/Props/C14.v (Print Assumptions under every theorem)',
-        trusted_base=['Coq 8.16.1 kernel (coqc; vm_compute for model evaluation)', 'translator/t_validators.py (Python ast -> Gen/Validators.v)',
-                      'Model/ValidatorsBase.v (CPython primitives: strip, whitespace, exact int/float comparison, float(int), int(float), len, iteration)',
-                      'Model/Validators.v semantics of the validator families', 'harness/w_validators.py, harness/c14.py (correspondence glue, oracle measurement)',
+        trusted_base=['Coq 8.16.1 kernel (coqc; vm_compute for model evaluation and shapes_good)',
+                      'translator/t_validators.py (Python ast -> Gen/Validators.v, fail closed)',
+                      'Model/ValidatorsBase.v (CPython primitives: strip, whitespace sets, exact int/float comparison, float(int), int(float), len, iteration)',
+                      'Model/Validators.v semantics of the validator families over the shapes record; Model/ValidatorsRegex.v',
+                      'Spec/ValidatorsSpec.v (the documented predicates, written from the property text)',
+                      'harness/w_validators.py, harness/c14.py (correspondence glue, oracle measurement)',
                       'CPython 3.12 stdlib: re, uuid, enum, datetime, int/float parsing'])
